@@ -144,6 +144,13 @@ pub fn one(ctx: &mut Ctx, rng: &mut Rng, x: &[u8], max_ops: usize) {
     for s in &sc.sigs {
         ctx.cover(s);
     }
+    {
+        // the script's shape: which calls with which outcomes occur together
+        let mut shape: Vec<&String> = sc.sigs.iter().collect();
+        shape.sort();
+        shape.dedup();
+        ctx.cover(&format!("shape|{:?}", shape));
+    }
     let mut compare = |ctx: &mut Ctx, who: &str, log: &[u8], pp: &ParsedPacket, rc: i32| {
         ctx.count(&format!("{}_runs", who));
         ctx.count_n("log_bytes_compared", log.len() as u64);
